@@ -196,6 +196,84 @@ def vtEmitAll : VtSt → List Cmd → VtSt × Text
     let b := vtEmitAll a.1 cs
     (b.1, a.2 ++ b.2)
 
+/-! ### the module-level memo tables `_16_fg_colors` / `_16_bg_colors` (`_16ColorCache`)
+
+  `get_code(value, exclude)` memoises `_get(value, exclude)` under the key `(value, tuple(exclude))`; the tables are
+  module globals: they survive every `Vt100_Output` and every `Renderer` of the process. -/
+
+/-- `_16ColorCache._cache`: `(rgb, exclude) ↦ (code, name)` -/
+abbrev Memo16 := List ((Nat × Nat × Nat) × List Text × (Nat × Text))
+
+structure ColorMemo where
+  fg : Memo16
+  bg : Memo16
+deriving Repr, Inhabited
+
+def ColorMemo.empty : ColorMemo := ⟨[], []⟩
+
+def memoLookup : Memo16 → (Nat × Nat × Nat) → List Text → Option (Nat × Text)
+  | [], _, _ => none
+  | (k, ex, v) :: rest, rgb, exclude => if k = rgb ∧ ex = exclude then some v else memoLookup rest rgb exclude
+
+/-- `_16ColorCache._get(value, exclude)` for the foreground (`bg = false`) / background table -/
+def get16 (bg : Bool) (rgb : Nat × Nat × Nat) (exclude : List Text) : Nat × Text :=
+  let name := closestAnsi rgb.1 rgb.2.1 rgb.2.2 exclude
+  ((lookupT2 (if bg then Gen.C06.bgAnsi else Gen.C06.fgAnsi) name).getD 0, name)
+
+/-- `_16ColorCache.get_code(value, exclude)` -/
+def getCode16 (bg : Bool) (m : Memo16) (rgb : Nat × Nat × Nat) (exclude : List Text) : (Nat × Text) × Memo16 :=
+  match memoLookup m rgb exclude with
+  | some v => (v, m)
+  | none => (get16 bg rgb exclude, (rgb, exclude, get16 bg rgb exclude) :: m)
+
+/-- nested `get(color, bg)` of `_colors_to_code`, going through the memo tables at 4-bit depth -/
+def colorGetM (cm : ColorMemo) (depth : Nat) (fgColor bgColor : Text) (fgAnsiName : Text) (color : Text) (bg : Bool) :
+    List Nat × Text × ColorMemo :=
+  let table := if bg then Gen.C06.bgAnsi else Gen.C06.fgAnsi
+  if color = [] ∨ depth = 1 then ([], fgAnsiName, cm)
+  else match lookupT2 table color with
+    | some code => ([code], fgAnsiName, cm)
+    | none =>
+      match colorToRgb color with
+      | none => ([], fgAnsiName, cm)
+      | some (r, g, b) =>
+        if depth = 4 then
+          if bg then
+            let exclude := if fgColor ≠ bgColor then [fgAnsiName] else []
+            let q := getCode16 true cm.bg (r, g, b) exclude
+            ([q.1.1], fgAnsiName, { cm with bg := q.2 })
+          else
+            let q := getCode16 false cm.fg (r, g, b) []
+            ([q.1.1], q.1.2, { cm with fg := q.2 })
+        else if depth = 24 then ([(if bg then 48 else 38), 2, r, g, b], fgAnsiName, cm)
+        else ([(if bg then 48 else 38), 5, closest256 r g b], fgAnsiName, cm)
+
+def colorsToCodeM (cm : ColorMemo) (depth : Nat) (fg bg : Text) : List Nat × ColorMemo :=
+  let f := colorGetM cm depth fg bg [] fg false
+  let b := colorGetM f.2.2 depth fg bg f.2.1 bg true
+  (f.1 ++ b.1, b.2.2)
+
+/-- `_EscapeCodeCache[depth][attrs]` computed through the memo tables -/
+def escapeCodeM (cm : ColorMemo) (depth : Nat) (a : Attrs) : Text × ColorMemo :=
+  let c := colorsToCodeM cm depth a.fg a.bg
+  ([ESC, '['] ++ (joinSemi ((0 :: (c.1 ++
+    ((if a.bold then [1] else []) ++ ((if a.italic then [3] else []) ++ ((if a.blink then [5] else []) ++
+    ((if a.underline then [4] else []) ++ ((if a.reverse then [7] else []) ++ ((if a.hidden then [8] else []) ++
+    (if a.strike then [9] else []))))))))).map digits) ++ ['m']), c.2)
+
+/-- one `Output` call of a `Vt100_Output` in a process whose memo tables are `cm` -/
+def vtEmitM (st : VtSt) (cm : ColorMemo) (c : Cmd) : VtSt × ColorMemo × Text :=
+  match c with
+  | .setAttrs a depth _ => (st, (escapeCodeM cm depth a).2, (escapeCodeM cm depth a).1)
+  | c => ((vtEmit st c).1, cm, (vtEmit st c).2)
+
+def vtEmitAllM : VtSt → ColorMemo → List Cmd → VtSt × ColorMemo × Text
+  | st, cm, [] => (st, cm, [])
+  | st, cm, c :: cs =>
+    let a := vtEmitM st cm c
+    let b := vtEmitAllM a.1 a.2.1 cs
+    (b.1, b.2.1, a.2.2 ++ b.2.2)
+
 /-! ### byte-level interpreter
 
   A VT100 / xterm terminal reading characters: C0 controls CR LF BS, `ESC [ <private>? <params> <final>`
